@@ -29,7 +29,8 @@ def _bound_rejection_loops(ex, limit=2):
           "toy curves with p = 3 mod 4 (quick: ec19_23, ec23_19; thorough: + ec19_13, ec23_31, ec67_19h4, ec67_29h2)",
     stubs=_STUBS, functions=["btclib.ecc.ssa.sign_", "btclib.ecc.bip340_nonce.bip340_nonce_", "btclib.ecc.bip340_nonce._bip340_nonce_", "btclib.ecc.ssa._sign_",
                              "btclib.ecc.ssa._assert_as_valid_", "btclib.ecc.ssa.challenge_", "btclib.ecc.ssa.verify_"],
-    outside=["byte-for-byte equality with BIP340's published vectors (needs real SHA-256 and secp256k1)", "messages longer than one byte (the message only ever enters a hash)"],
+    outside=["byte-for-byte equality with BIP340's published vectors (needs real SHA-256 and secp256k1)", "messages longer than one byte (the message only ever enters a hash)",
+             "batch verification (assert_batch_as_valid_): the obligation 'all members valid => batch accepted' did not terminate in 25 min on the smallest curve"],
     timeout=1500, weight=8, query_timeout_ms=300000)
 def sign_then_verify(ex, ec):
     name = ec
@@ -93,38 +94,31 @@ def verify_is_bip340(ex, ec):
     return {"lift_x_agrees": sand(Pd >= 0, g.ys[Pd] == y), "accept_iff_bip340": iff(accepted, ref)}
 
 
-@ob("C03", "batch_accepts_when_every_member_verifies", quick=[dict(ec="ec19_23", size=2)], thorough=[dict(ec=c, size=k) for c in toy.SCHNORR_QUICK for k in (2, 3)],
-    bound="batch of `size` signatures, each with symbolic key, nonce, message byte; random batch coefficients arbitrary in 1..n-1; "
-          "claim only in the direction that holds for every coefficient: all members valid => the batch is accepted (the converse is probabilistic)",
-    stubs=_STUBS + ["secrets.randbelow returns an arbitrary value of its range"],
-    functions=["btclib.ecc.ssa.assert_batch_as_valid_"], timeout=1500, weight=6, query_timeout_ms=300000)
+# NOT REGISTERED: the batch-verification obligation below did not terminate within 25 minutes on the smallest curve (ec19_23, batch of 2), in two
+# formulations (hash as UF; challenge as an arbitrary value). It is kept for reference and listed as outside the claim in DESIGN.md and in the evidence.
 def batch(ex, ec, size):
     name = ec
     ec = toy.curve(name)
     g = toy.install_group_oracle(ex, name)
-    _bound_rejection_loops(ex, limit=0)
     n = ec.n
+    cs = [ex.int(f"c{i}", 1, n - 1) for i in range(size)]
+
+    def challenge(msg, x_Q, x_K, ec_, hf):
+        k = ex.path_state.get("chal", 0)
+        ex.path_state["chal"] = k + 1
+        return cs[k % size]
+    ex.stub(ssa.challenge_, challenge)
     msgs, Qs, sigs = [], [], []
     for i in range(size):
         q = ex.int(f"q{i}", 1, n - 1)
         k = ex.int(f"k{i}", 1, n - 1)
-        m = ex.bytes(f"m{i}_", 1)
-        # honest signature built from the equations (even-y normalisation through the oracle)
         Qd = g.mul_idx(q, g.g)
         d = ite(g.ys[Qd] % 2 == 0, q, n - q)
         Kd = g.mul_idx(k, g.g)
         kk = ite(g.ys[Kd] % 2 == 0, k, n - k)
-        x_Q, x_K = g.xs[Qd], g.xs[Kd]
-        ex.path_state["ifb"] = 0
-        try:
-            c = ssa.challenge_(m, x_Q, x_K, ec, ssa.sha256)
-        except BTClibRuntimeError:
-            return ex.refuse("zero_challenge")
-        sgn = ssa.Sig(x_K, (kk + c * d) % n, ec, check_validity=False)
-        msgs.append(m)
-        Qs.append(x_Q)
-        sigs.append(sgn)
-    ex.path_state["ifb"] = -10
+        msgs.append(bytes([i]))
+        Qs.append(g.xs[Qd])
+        sigs.append(ssa.Sig(g.xs[Kd], (kk + cs[i] * d) % n, ec, check_validity=False))
     try:
         ssa.assert_batch_as_valid_(msgs, Qs, sigs, ssa.sha256)
         ok = True
